@@ -1,4 +1,5 @@
 import NeumannModel.KV.Lemmas
+import NeumannModel.KV.EmbLemmas
 /-
   C11 — concurrent store operations behave as if executed one at a time.
 
@@ -128,59 +129,85 @@ theorem emb_mixture_witness :
     decide
   exact ⟨hh, hn, fun h => hn (h embMixtureProgs embMixtureSched (by decide))⟩
 
-/-- PARTIAL.  What is missing: the general statement "every history in which no two operations on
-    the same `emb:` key overlap is linearizable" (any programs, any schedule) is NOT proved.
-    What is proved: the three-step `emb:` operations of one thread running alone (no overlapping
-    operation at all) return exactly the specification's results, for EVERY pair of values (all
-    three shapes of `_embedding`: absent, slab dimension, other dimension) — put, get (vector path
-    and metadata fallback), overwrite, exists, delete, get / exists after delete. -/
-theorem emb_linearizable_partial (v1 v2 : Val) :
-    ((runSched false [[.put kE1 v1, .get kE1, .put kE1 v2, .get kE1, .exists_ kE1, .delete kE1,
-        .get kE1, .exists_ kE1]] (List.replicate 20 0)).hist.map (·.res))
-      = [.ok, .found v1, .ok, .found v2, .bool true, .ok, .notFound, .bool false] := by
-  rcases v1 with ⟨t1, (_|a|a)⟩ <;> rcases v2 with ⟨t2, (_|b|b)⟩ <;>
-    simp [runSched, runFrom, initSys, List.replicate, step, stepOp, routerPut, routerGet, routerDelete,
-      existsNow, mdGet, idxGetOrCreate, idxGet, idxGetAux, idxRemove, slabPut, aset, aerase, aget, kE1]
+/-- PARTIAL.  What is missing: histories in which two operations on ONE `emb:` key overlap (they
+    are not linearizable, see `emb_mixture_witness` and the known findings), runs with the durable
+    log (`put_durable` / `delete_durable`), and the operations still in progress when the schedule
+    ends (`Linearizable` speaks of completed operations, so the run must have finished: a scan
+    may have seen the key of a `put` that has taken only its index step).
+    What is proved, for EVERY number of threads, ALL programs of put / get / delete / exists / scan
+    on keys of every class and EVERY schedule in which no operation on an `emb:` key is invoked
+    while another operation on the same key is in progress (`NoEmbOverlap`, computed along the
+    schedule; operations on different keys, scans and everything on the other classes overlap
+    freely): once every thread has finished the history is linearizable — with every result
+    exactly the specification's (`SeqStrict`), and the quiescent store shows every key (get,
+    exists, scan membership) exactly as the specification state after that order does.
+    Linearization points: a put of an `emb:` key at its first (index) step, everything else at its
+    last step.  The invariant (`SInv`) is the index / slab / metadata coherence: a key no operation
+    is inside of is absent from index and metadata, or present in both with the slab holding the
+    vector of the metadata value; a key with an operation inside is in the partial state that
+    operation's yield point implies; entity ids are never shared. -/
+theorem emb_linearizable_partial (progs : List ThreadProgram) (sched : List Nat)
+    (h : ∀ p ∈ progs, ∀ op ∈ p, op.nonDurable = true)
+    (hx : NoEmbOverlap false progs sched = true)
+    (hq : quiescent (runSched false progs sched) = true) :
+    Linearizable (runSched false progs sched).hist ∧
+    ∃ order : List OpRec, order.Perm (runSched false progs sched).hist ∧ SeqStrict [] order ∧
+      RespectsRealTime order ∧
+      ∀ k, view (runSched false progs sched).store k =
+        (specRes (specRun [] (order.map (·.op))) (.get k),
+         (aget (specRun [] (order.map (·.op))) k).isSome, (aget (specRun [] (order.map (·.op))) k).isSome) := by
+  have inv : EInv (runSched false progs sched) := (EInv.init progs h).run sched hx
+  obtain ⟨order, hperm, hstrict, hrt, hs⟩ := inv.linearizable hq
+  exact ⟨⟨order, hperm, hstrict.valid, hrt⟩, order, hperm, hstrict, hrt, fun k => hs.view_quiescent hq k⟩
 
-/-! ### durable writes: log under the mutex, apply after it -/
+/-- non-vacuity: three threads; the put of `emb:1` (three steps) overlaps a scan, a get of `emb:2`,
+    the put of `emb:2` and operations on `user:1`, never another operation on `emb:1`; the scan at
+    step 1 already lists `emb:1` (index step done, no metadata yet) -/
+example :
+    (∀ p ∈ ([[.put ⟨.emb, 1⟩ ⟨1, .good 1⟩, .get ⟨.emb, 2⟩, .delete ⟨.emb, 1⟩],
+        [.scan (some .emb), .put ⟨.emb, 2⟩ ⟨2, .bad 2⟩, .get ⟨.emb, 1⟩],
+        [.put ⟨.plain, 1⟩ ⟨3, .none⟩, .exists_ ⟨.emb, 2⟩, .get ⟨.plain, 1⟩]] : List ThreadProgram),
+        ∀ op ∈ p, op.nonDurable = true) ∧
+    NoEmbOverlap false [[.put ⟨.emb, 1⟩ ⟨1, .good 1⟩, .get ⟨.emb, 2⟩, .delete ⟨.emb, 1⟩],
+        [.scan (some .emb), .put ⟨.emb, 2⟩ ⟨2, .bad 2⟩, .get ⟨.emb, 1⟩],
+        [.put ⟨.plain, 1⟩ ⟨3, .none⟩, .exists_ ⟨.emb, 2⟩, .get ⟨.plain, 1⟩]]
+        [0, 1, 2, 1, 0, 1, 0, 1, 2, 0, 1, 1, 1, 0, 0, 0, 0, 2] = true ∧
+    quiescent (runSched false [[.put ⟨.emb, 1⟩ ⟨1, .good 1⟩, .get ⟨.emb, 2⟩, .delete ⟨.emb, 1⟩],
+        [.scan (some .emb), .put ⟨.emb, 2⟩ ⟨2, .bad 2⟩, .get ⟨.emb, 1⟩],
+        [.put ⟨.plain, 1⟩ ⟨3, .none⟩, .exists_ ⟨.emb, 2⟩, .get ⟨.plain, 1⟩]]
+        [0, 1, 2, 1, 0, 1, 0, 1, 2, 0, 1, 1, 1, 0, 0, 0, 0, 2]) = true ∧
+    (runSched false [[.put ⟨.emb, 1⟩ ⟨1, .good 1⟩, .get ⟨.emb, 2⟩, .delete ⟨.emb, 1⟩],
+        [.scan (some .emb), .put ⟨.emb, 2⟩ ⟨2, .bad 2⟩, .get ⟨.emb, 1⟩],
+        [.put ⟨.plain, 1⟩ ⟨3, .none⟩, .exists_ ⟨.emb, 2⟩, .get ⟨.plain, 1⟩]]
+        [0, 1, 2, 1, 0, 1, 0, 1, 2, 0, 1, 1, 1, 0, 0, 0, 0, 2]).hist.map (fun r => (r.t, r.i, r.res, r.inv, r.ret))
+      = [(1, 0, .keys [⟨.emb, 1⟩], 1, 1), (2, 0, .ok, 2, 2), (0, 0, .ok, 0, 6), (1, 1, .ok, 3, 7),
+         (2, 1, .bool true, 8, 8), (1, 2, .found ⟨1, .good 1⟩, 10, 12), (0, 1, .found ⟨2, .bad 2⟩, 9, 13),
+         (0, 2, .ok, 14, 16), (2, 2, .found ⟨3, .none⟩, 17, 17)] := by decide
 
-/-- FULL STATEMENT (false of the code as it is, see `durable_order_witness`): for durable writers,
-    once every thread has finished, the store recovered from the log shows every key (get, exists,
-    membership in scan) exactly as the in-memory store does. -/
-def DurableOrderEqMemoryOrder : Prop :=
+/-- the hypothesis is what separates the two: the schedule of `emb_mixture_witness` violates it -/
+example : NoEmbOverlap false embMixtureProgs embMixtureSched = false := by decide
+
+/-! ### durable writes: logged and applied under the log mutex -/
+
+/-- THE STATEMENT, over a step machine `run`: for durable writers, once every thread has finished,
+    the store recovered from the log shows every key (get, exists, membership in scan) exactly as
+    the in-memory store does. -/
+def DurableOrderEqMemoryOrder (run : Bool → List ThreadProgram → List Nat → Sys) : Prop :=
   ∀ (progs : List ThreadProgram) (sched : List Nat),
     (∀ p ∈ progs, ∀ op ∈ p, op.simpleDurablePut = true) →
-    quiescent (runSched true progs sched) = true →
-    ∀ k, view (recover (runSched true progs sched).store.wal) k = view (runSched true progs sched).store k
+    quiescent (run true progs sched) = true →
+    ∀ k, view (recover (run true progs sched).store.wal) k = view (run true progs sched).store k
 
-/-- A logs, B logs, B applies, A applies: the log ends with B's record, memory with A's value. -/
-theorem durable_order_witness :
-    (runSched true durableOrderProgs durableOrderSched).store.wal
-      = [.metaSet kP1 ⟨1, .none⟩, .metaSet kP1 ⟨2, .none⟩] ∧
-    view (runSched true durableOrderProgs durableOrderSched).store kP1 = (.found ⟨1, .none⟩, true, true) ∧
-    view (recover (runSched true durableOrderProgs durableOrderSched).store.wal) kP1
-      = (.found ⟨2, .none⟩, true, true) ∧
-    ¬ DurableOrderEqMemoryOrder := by
-  refine ⟨by decide, by decide, by decide, ?_⟩
-  intro h
-  have := h durableOrderProgs durableOrderSched (by decide) (by decide) kP1
-  revert this
-  decide
-
-/-- THE REPAIRED `put_durable` (proposed/C11-durable-apply-under-log-mutex.diff: the log mutex is
-    held from the log step to the end of the in-memory apply; `runLocked` = `runSched` in which a
-    thread about to log while another holds the mutex does not move).  For every number of durable
-    writers of ANY, also the same, plain / graph / table keys (vector-free values) and every
-    lock-respecting interleaving: once every thread has finished, the store recovered from the log
-    shows every key exactly as memory does.  The witness interleaving of `durable_order_witness`
-    is not executable under the mutex (thread B cannot log between A's log and A's apply). -/
-theorem durable_order_eq_memory_order_when_apply_under_log_mutex
-    (progs : List ThreadProgram) (sched : List Nat)
-    (h : ∀ p ∈ progs, ∀ op ∈ p, op.simpleDurablePut = true)
-    (hq : quiescent (runLocked true progs sched) = true) :
-    ∀ k, view (recover (runLocked true progs sched).store.wal) k
-       = view (runLocked true progs sched).store k := by
-  have inv : LInv (runLocked true progs sched) := (LInv.init progs h).run sched
+/-- FULL STRENGTH for the current code (repo dfea2ecb: the log mutex is held from the log step to
+    the end of the in-memory apply; `runSched` = the interleaving in which a thread about to log
+    while another holds the mutex does not move).  For every number of durable writers of ANY,
+    also the same, plain / graph / table keys (vector-free values) and every interleaving: once
+    every thread has finished, the store recovered from the log shows every key exactly as memory
+    does — in every reachable state at most one thread is between its log step and its apply, and
+    the replayed log equals memory on every key but that thread's (`LInv`). -/
+theorem durable_order_eq_memory_order : DurableOrderEqMemoryOrder runSched := by
+  intro progs sched h hq
+  have inv : LInv (runSched true progs sched) := (LInv.init progs h).run sched
   intro k
   refine view_of_shape (recover _) _ k inv.rshape inv.shape (inv.idle k ?_)
   intro i th v hi hp
@@ -193,55 +220,30 @@ theorem durable_order_eq_memory_order_when_apply_under_log_mutex
 /-- non-vacuity: the two contended writers of the witness; under the mutex the schedule
     A-log, B-log(blocked), B(blocked), A-apply, B-log, B-apply finishes with log order = apply order -/
 example :
-    quiescent (runLocked true durableOrderProgs [0, 1, 1, 0, 1, 1]) = true ∧
-    (runLocked true durableOrderProgs [0, 1, 1, 0, 1, 1]).store.wal
+    (∀ p ∈ durableOrderProgs, ∀ op ∈ p, op.simpleDurablePut = true) ∧
+    quiescent (runSched true durableOrderProgs [0, 1, 1, 0, 1, 1]) = true ∧
+    (runSched true durableOrderProgs [0, 1, 1, 0, 1, 1]).store.wal
       = [.metaSet kP1 ⟨1, .none⟩, .metaSet kP1 ⟨2, .none⟩] ∧
-    (runLocked true durableOrderProgs [0, 1, 1, 0, 1, 1]).store.md = [(kP1, ⟨2, .none⟩)] := by decide
+    (runSched true durableOrderProgs [0, 1, 1, 0, 1, 1]).store.md = [(kP1, ⟨2, .none⟩)] := by decide
 
-/-- PARTIAL (what is missing: two threads writing the SAME key, see `durable_order_witness`; values
-    with an `_embedding`, `emb:` keys and `delete_durable`): for every number of durable writers,
-    every program of vector-free `put_durable`s on plain / graph / table keys and EVERY interleaving
-    of their log and apply steps, if no key is written by two different threads then, once every
-    thread has finished, the store recovered from the log shows every key (get, exists, scan
-    membership) exactly as memory does — in every reachable state the replayed log equals memory on
-    every key but those of writes logged and not yet applied (`DInv`). -/
-theorem durable_order_partial (progs : List ThreadProgram) (sched : List Nat)
-    (h : ∀ p ∈ progs, ∀ op ∈ p, op.simpleDurablePut = true) (ho : KeysOwned progs)
-    (hq : quiescent (runSched true progs sched) = true) :
-    ∀ k, view (recover (runSched true progs sched).store.wal) k
-       = view (runSched true progs sched).store k := by
-  have inv : DInv (runSched true progs sched) := (DInv.init progs h ho).run sched
-  intro k
-  refine view_of_shape (recover _) _ k inv.rshape inv.shape (inv.idle k ?_)
-  intro i th v hi hp
-  have hmem := List.mem_of_getElem? hi
-  simp only [quiescent, List.all_eq_true, List.isEmpty_iff] at hq
-  obtain ⟨_, rest, hr⟩ := hp
-  rw [hq th hmem] at hr
-  cases hr
-
-/-- non-vacuity: three writers (one writes its key twice), keys owned, an interleaving in which
-    the log order of the three keys differs from their apply order; it reaches quiescence -/
-example :
-    (∀ p ∈ ([[.putD ⟨.plain, 1⟩ ⟨1, .none⟩, .putD ⟨.plain, 1⟩ ⟨4, .none⟩], [.putD ⟨.graph, 1⟩ ⟨2, .none⟩],
-        [.putD ⟨.table, 1⟩ ⟨3, .none⟩]] : List ThreadProgram), ∀ op ∈ p, op.simpleDurablePut = true) ∧
-    quiescent (runSched true [[.putD ⟨.plain, 1⟩ ⟨1, .none⟩, .putD ⟨.plain, 1⟩ ⟨4, .none⟩],
-        [.putD ⟨.graph, 1⟩ ⟨2, .none⟩], [.putD ⟨.table, 1⟩ ⟨3, .none⟩]] [0, 1, 2, 2, 1, 0, 0, 0]) = true ∧
-    (runSched true [[.putD ⟨.plain, 1⟩ ⟨1, .none⟩, .putD ⟨.plain, 1⟩ ⟨4, .none⟩],
-        [.putD ⟨.graph, 1⟩ ⟨2, .none⟩], [.putD ⟨.table, 1⟩ ⟨3, .none⟩]] [0, 1, 2, 2, 1, 0, 0, 0]).store.md
-      = [(⟨.plain, 1⟩, ⟨4, .none⟩), (⟨.graph, 1⟩, ⟨2, .none⟩), (⟨.table, 1⟩, ⟨3, .none⟩)] := by decide
-
-example : KeysOwned [[.putD ⟨.plain, 1⟩ ⟨1, .none⟩, .putD ⟨.plain, 1⟩ ⟨4, .none⟩],
-    [.putD ⟨.graph, 1⟩ ⟨2, .none⟩], [.putD ⟨.table, 1⟩ ⟨3, .none⟩]] := by
-  intro i j pi pj hi hj hij a ha b hb
-  match i, j with
-  | 0, 0 | 1, 1 | 2, 2 => exact absurd rfl hij
-  | 0, 1 | 0, 2 | 1, 0 | 1, 2 | 2, 0 | 2, 1 =>
-    simp only [List.getElem?_cons_zero, List.getElem?_cons_succ, Option.some.injEq] at hi hj
-    subst hi hj
-    revert hb; revert b; revert ha; revert a
-    decide
-  | _ + 3, _ => simp at hi
-  | 0, _ + 3 | 1, _ + 3 | 2, _ + 3 => simp at hj
+/-- THE CODE BEFORE dfea2ecb (`runSchedOld`: the mutex covered the log step only) did not have the
+    property: A logs, B logs, B applies, A applies — the log ends with B's record, memory with A's
+    value.  Under the mutex the same schedule is not executable: thread B does not move until A
+    has applied, and the run is not finished after these four picks. -/
+theorem durable_order_witness :
+    (runSchedOld true durableOrderProgs durableOrderSched).store.wal
+      = [.metaSet kP1 ⟨1, .none⟩, .metaSet kP1 ⟨2, .none⟩] ∧
+    view (runSchedOld true durableOrderProgs durableOrderSched).store kP1 = (.found ⟨1, .none⟩, true, true) ∧
+    view (recover (runSchedOld true durableOrderProgs durableOrderSched).store.wal) kP1
+      = (.found ⟨2, .none⟩, true, true) ∧
+    ¬ DurableOrderEqMemoryOrder runSchedOld ∧
+    (runSched true durableOrderProgs durableOrderSched).trace
+      = [(0, .putD kP1 ⟨1, .none⟩, .start), (0, .putD kP1 ⟨1, .none⟩, .putDAfterLog)] ∧
+    quiescent (runSched true durableOrderProgs durableOrderSched) = false := by
+  refine ⟨by decide, by decide, by decide, ?_, by decide, by decide⟩
+  intro h
+  have := h durableOrderProgs durableOrderSched (by decide) (by decide) kP1
+  revert this
+  decide
 
 end Neumann.KV.Props
